@@ -35,7 +35,8 @@ impl Recipe {
     }
 
     pub fn builder(&self) -> SchemeBuilder {
-        let mut b = SchemeBuilder::new();
+        // both public ways of creating a builder (the C API uses the second)
+        let mut b = if (self.fields.len() + self.funcs.len()) % 2 == 0 { SchemeBuilder::new() } else { SchemeBuilder::default() };
         for f in &self.fields {
             if f.optional {
                 b.add_optional_field(&f.name, f.ty.to_engine()).expect("recipe field names are unique");
